@@ -18,6 +18,7 @@ LEVEL_TEXT = ("Held on every generated history of the run: per key the recorded 
               "past 0xFFFFFF s. Histories are sampled; the three drivers are the public TimedStore and its two real users")
 LEVEL_NOTE = ("trusts the deadline model in this module and the virtual loop (CPython's scheduler with a virtual clock, FIFO order for "
               "equal deadlines); at exact coincidence both outcomes the property allows are accepted")
+TIEBREAK_VARIANTS = True  # thorough tier: some shards run equal-deadline timers LIFO / in seeded random order
 RULE = (
     "histories of 6..30 operations (add, add that the application rejects, refresh longer/shorter/to-infinite/from-infinite, stop, remove-all-for-address, "
     "connection loss, re-add) over 3 keys x 2 addresses with TTLs {1,2,3,0xFFFFFE,infinite}; each operation is placed either "
